@@ -241,6 +241,8 @@ class Simulation:
         self.ino_state: dict = {}
         self.step_capped = False
         self.unlink_faulted: set = set()
+        self.vtime = 0.0  # simulated seconds: the only clock code under test can read through `time`
+        self.sleeps = 0
 
     # ------------------------------------------------------------------ actors
     def add_actor(self, name, fn, faultable=True) -> Actor:
@@ -402,14 +404,14 @@ class Simulation:
         return self.tape.flag(k.switch_permille, "sched.sw")
 
     def _is_enum_point(self, op: Op) -> bool:
-        if op.name == "flock":
+        if op.name in ("flock", "sleep"):
             return True
         if op.name in ("replace", "rename") and op.path2 in self.focus_paths:
             return True
         return op.name == "open_r" and op.path in self.focus_paths
 
     def _is_focus(self, op: Op) -> bool:
-        if not self.focus_paths:
+        if not self.focus_paths or op.name in ("flock", "sleep"):
             return True
         return op.path in self.focus_paths or op.path2 in self.focus_paths or op.name in ("replace", "rename")
 
@@ -803,7 +805,27 @@ class Simulation:
         op.outcome = "ok"
         return None
 
+    # ------------------------------------------------------------------ time seam
+    def clock_read(self, a: Actor) -> float:
+        self.vtime += 1e-4  # every read makes a little progress, so polling loops terminate
+        return self.vtime
+
+    def sleep(self, a: Actor, seconds: float):
+        if a.dead:
+            raise SimKilled()
+        op = Op(a.id, a.op_count, "sleep", None, None, None, round(float(seconds), 6))
+        a.op_count += 1
+        kind, en = self.yield_point(a, op)
+        self._lock_directive(a, op, kind)
+        self.vtime += max(0.0, float(seconds))
+        self.sleeps += 1
+        op.outcome = "ok"
+
     def _lock_directive(self, a, op, kind):
+        if kind == "realkill":
+            import signal
+
+            os.kill(os.getpid(), signal.SIGKILL)
         if self.before_op is not None:
             with passthrough():
                 self.before_op(self, a, op, kind)
@@ -1162,11 +1184,45 @@ def _sim_flock(fd, operation):
     return a.sim.flock(a, fd, operation)
 
 
+def _make_time_wrappers():
+    import time as _time
+
+    _real["time.sleep"], _real["time.monotonic"], _real["time.time"], _real["time.perf_counter"] = (
+        _time.sleep, _time.monotonic, _time.time, _time.perf_counter)
+
+    def sleep(seconds):
+        a = current_actor()
+        if a is None:
+            return _real["time.sleep"](seconds)
+        return a.sim.sleep(a, seconds)
+
+    def monotonic():
+        a = current_actor()
+        if a is None:
+            return _real["time.monotonic"]()
+        return a.sim.clock_read(a)
+
+    def perf_counter():
+        a = current_actor()
+        if a is None:
+            return _real["time.perf_counter"]()
+        return a.sim.clock_read(a)
+
+    def time_():
+        a = current_actor()
+        if a is None:
+            return _real["time.time"]()
+        return 1_700_000_000.0 + a.sim.clock_read(a)
+
+    _time.sleep, _time.monotonic, _time.perf_counter, _time.time = sleep, monotonic, perf_counter, time_
+
+
 def install():
     """Patch the module attributes once per process; pass-through outside actor threads."""
     global _installed, _NAMESEQ
     if _installed:
         return
+    _make_time_wrappers()
     for n in _OS_NAMES:
         _real[n] = getattr(os, n)
     _real["io.open"] = io.open
@@ -1195,6 +1251,10 @@ def uninstall():
     builtins.open = _real["io.open"]
     io.open = _real["io.open"]
     tempfile._get_candidate_names = _real["candidate_names"]
+    import time as _time
+
+    _time.sleep, _time.monotonic, _time.time, _time.perf_counter = (
+        _real["time.sleep"], _real["time.monotonic"], _real["time.time"], _real["time.perf_counter"])
     try:
         import fcntl
         fcntl.flock = _real["flock"]
